@@ -57,6 +57,36 @@ def case : P String := do
     pure (match SpeedUnit.fromPair du tu with
       | .unit u => "ok " ++ u.name
       | .panic => "panic")
+  | "ustr" => do
+    let fam ← next
+    let t ← next
+    let s ← (match t.toList with
+      | 'x' :: r =>
+        let rec bytesU : List Char → Option (List UInt8)
+          | [] => some []
+          | a :: b :: rest =>
+            let hv : Char → Option Nat := fun c =>
+              if '0' ≤ c ∧ c ≤ '9' then some (c.toNat - '0'.toNat)
+              else if 'a' ≤ c ∧ c ≤ 'f' then some (c.toNat - 'a'.toNat + 10) else none
+            match hv a, hv b, bytesU rest with
+            | some x, some y, some l => some ((x * 16 + y).toUInt8 :: l)
+            | _, _, _ => none
+          | _ => none
+        match bytesU r with
+        | some bs => (match String.fromUTF8? (ByteArray.mk bs.toArray) with | some s => pure s | none => failure)
+        | none => failure
+      | _ => failure : P String)
+    let out : Option String := match fam with
+      | "d" => some (match unitFromStr DistanceUnit.ofName? s with | some u => "ok " ++ u.name | none => "err")
+      | "t" => some (match unitFromStr TimeUnit.ofName? s with | some u => "ok " ++ u.name | none => "err")
+      | "e" => some (match unitFromStr EnergyUnit.ofName? s with | some u => "ok " ++ u.name | none => "err")
+      | "r" => some (match unitFromStr EnergyRateUnit.ofName? s with | some u => "ok " ++ u.name | none => "err")
+      | "g" => some (match unitFromStr GradeUnit.ofName? s with | some u => "ok " ++ u.name | none => "err")
+      | "w" => some (match unitFromStr WeightUnit.ofName? s with | some u => "ok " ++ u.name | none => "err")
+      | _ => none
+    match out with
+    | some o => pure o
+    | none => failure
   | "sustr" => do
     let t ← next
     -- the text as `x<hex utf8>`
